@@ -18,6 +18,8 @@ import (
 	"pgregory.net/rapid"
 )
 
+var errSharedClose = errors.New("shared close sentinel")
+
 // spy is a chain member of our own: it counts lifecycle calls and can fail Close.
 type spy struct {
 	interceptor.NoOp
@@ -147,8 +149,14 @@ func TestChainTransparency(t *testing.T) {
 		var spies []*spy
 		addSpy := func() {
 			s := &spy{unbindLocal: map[uint32]int{}, unbindRemote: map[uint32]int{}}
-			if rapid.Bool().Draw(t, "spyFails") {
+			// Close errors of different members may be related (the same sentinel, or one wrapping another's): each must still be preserved
+			switch rapid.IntRange(0, 5).Draw(t, "spyFails") {
+			case 0, 1:
 				s.closeErr = fmt.Errorf("spy %d close error", len(spies))
+			case 2:
+				s.closeErr = errSharedClose
+			case 3:
+				s.closeErr = fmt.Errorf("spy %d: %w", len(spies), errSharedClose)
 			}
 			spies = append(spies, s)
 			reg.Add(spyFactory{s})
